@@ -29,6 +29,7 @@ type c09Spec struct {
 	Word   []string `json:"word,omitempty"`
 	After  bool     `json:"after,omitempty"` // the crop follows a complete winter wheat and is harvested early (before maturity)
 	Self   bool     `json:"self,omitempty"`  // ... follows a complete season of itself instead
+	Long   *lwSpec  `json:"long,omitempty"`  // a long world (long.go): every crop of its rotation is judged while it grows
 }
 
 // annual main crops of the property (permanent crops and ad-hoc catch-crop sets are not claimed)
@@ -71,6 +72,10 @@ func c09Specs(tier string, seed int) []c09Spec {
 			i++
 		}
 	}
+	for _, lw := range lwSpecs(tier, seed, false) {
+		lw := lw
+		out = append(out, c09Spec{Long: &lw})
+	}
 	return out
 }
 
@@ -98,10 +103,73 @@ func init() {
 	})
 }
 
+// c09LongProbe judges every crop of a rotation on every day between its sowing and its harvest (development order only
+// for annual crops: a permanent crop starts again after a cut).
+func c09LongProbe(c *mc.Ctx, label string) *hermes.VerifProbe {
+	lastStage, lastCrop := -1.0, -1
+	return &hermes.VerifProbe{DayEnd: func(g *hermes.GlobalVarsMain, zeit int, steps, wdt float64, cs *hermes.CropSharedVars, wv *hermes.WaterSharedVars) {
+		k := g.AKF.Index
+		if g.SAAT[k] <= 0 || zeit < g.SAAT[k] || zeit >= g.ERNTE[k] {
+			return
+		}
+		if k != lastCrop {
+			lastCrop, lastStage = k, -1
+		}
+		c.Transition(1)
+		h := mc.NewHasher().I(k).F(g.INTWICK.Num).F(g.OBMAS).F(g.LAI).I(g.WURZ).F(g.PESUM)
+		c.State(h.Sum())
+		if g.REDUK < 1 || g.TRREL < 1 || g.WURZ == g.N {
+			c.NonTrivial(h.Sum())
+		}
+		day := fmt.Sprintf("%s crop %d (%s) day %s (stage %g)", label, k, g.CropTypeToString(g.FRUCHT[k], false), proj.FromZEIT(zeit).Format("2006-01-02"), g.INTWICK.Num)
+		nonneg := func(name string, v float64) {
+			c.Eval(1)
+			if !finite(v) || v < -1e-12 {
+				c.Violate("crop-state-negative-or-nonfinite "+name, fmt.Sprintf("%s: %s = %v", day, name, v), nil)
+			}
+		}
+		for i := 0; i < 5; i++ {
+			nonneg(fmt.Sprintf("organ mass %d", i+1), g.WORG[i])
+		}
+		nonneg("above-ground biomass", g.OBMAS)
+		nonneg("root biomass", g.WUMAS)
+		nonneg("leaf area index", g.LAI)
+		nonneg("assimilate pool", g.ASPOO)
+		nonneg("crop N content", g.PESUM)
+		nonneg("N concentration above ground", g.GEHOB)
+		nonneg("N concentration roots", g.WUGEH)
+		for _, r := range []struct {
+			n string
+			v float64
+		}{{"N stress factor", g.REDUK}, {"transpiration ratio", g.TRREL}} {
+			c.Eval(1)
+			if !finite(r.v) || r.v < -1e-12 || r.v > 1+1e-12 {
+				c.Violate("stress-factor-outside-0-1 "+r.n, fmt.Sprintf("%s: %s = %v", day, r.n, r.v), nil)
+			}
+		}
+		c.Eval(3)
+		if g.WURZ > g.N {
+			c.Violate("rooting-depth-below-profile", fmt.Sprintf("%s: rooting depth %d layers, the profile has %d", day, g.WURZ, g.N), nil)
+		}
+		lim := math.Max(float64(g.WURZMAX), math.Round(float64(g.WURZMAX)*g.WUMAXPF/11))
+		if float64(g.WURZ) > lim {
+			c.Violate("rooting-depth-beyond-soil-root-limit", fmt.Sprintf("%s: rooting depth %d layers, soil root limit %d (crop factor %g/11)", day, g.WURZ, g.WURZMAX, g.WUMAXPF), nil)
+		}
+		if !g.DAUERKULT && g.INTWICK.Num < lastStage {
+			c.Violate("development-stage-decreased", fmt.Sprintf("%s: stage went from %g to %g", day, lastStage, g.INTWICK.Num), nil)
+		}
+		lastStage = g.INTWICK.Num
+	}}
+}
+
 func c09Run(raw json.RawMessage, c *mc.Ctx) {
 	sp := mc.Decode[c09Spec](raw)
 	root := scratchRoot()
 	defer os.RemoveAll(root)
+	if sp.Long != nil {
+		lwRun(c, *sp.Long, root, nil, func(w *lwInfo) *hermes.VerifProbe { return c09LongProbe(c, "long world "+w.Name) })
+		return
+	}
 	abbr := sp.File[strings.LastIndex(sp.File, ".")+1:]
 	variety := ""
 	if i := strings.Index(sp.File, "_"); i >= 0 {
